@@ -514,6 +514,8 @@ theorem nconcat_coarsens (cfg : NCfg) (P : List Char → POut) {path : List Node
       have hp : f.pos = cfg.numPos := by simpa using hne
       dsimp only at h
       split at h
+      · cases h
+      split at h
       · rename_i hen
         split at h
         · exact concatNodes_coarsens cfg h (hpos hp) (fun hn => by rw [hen] at hn; cases hn)
